@@ -8,6 +8,7 @@
 //!
 //! C13 op file (shared with the Lean driver `dmodel_writer`):
 //!   case id=<n>
+//!   (a day `100 + d` in a message means day d of the SECOND room: an update naming it moves the row there)
 //!   batch msgs=<m>,<m>,… [fault=<point>] [crash=<point>]
 //!   recompute
 //! messages:  pm.<day>.<k>-<v>+<k>-<v>…   one local mutation writing the listed rows (insert or update by key)
@@ -400,8 +401,9 @@ fn workloads(tier: &str) -> Vec<(Vec<&'static str>, usize)> {
     let mut w = vec![
         (
             vec![
-                "pm.0.1-1+2-1,rm.1,pn.0.3-1",
-                "pm.1.1-2+4-1,dl.1.2,pn.1.5-1+6-1,ed.1-3,wr.1,rc,ps.1.7-1,dn.2.3,rs.2",
+                "pm.0.1-1+2-1,rm.1,pn.0.3-1,pm.100.9-1",
+                // … row 0 moves to room 2 (day key 101), row 9 moves from room 2 to room 1
+                "pm.1.1-2+4-1,dl.1.2,pn.1.5-1+6-1,ed.1-3,wr.1,rc,ps.1.7-1,dn.2.3,rs.2,pm.101.0-4,pm.2.9-2",
                 "wr.2,pm.2.8-1",
             ],
             1,
@@ -419,6 +421,10 @@ fn workloads(tier: &str) -> Vec<(Vec<&'static str>, usize)> {
         ));
         w.push((vec!["pm.0.1-1,wr.1", "rm.1,rm.2,ed.1-0", "pm.1.1-2"], 1));
         w.push((vec!["pm.0.1-1", "dl.1.1,pn.1.2-1,dn.1.0"], 1));
+        w.push((
+            vec!["pm.100.1-1+2-1,pn.101.3-1", "dl.102.1,pm.3.2-2,dn.102.3,ps.101.0-1", "rc,pm.100.2-3"],
+            1,
+        ));
     }
     w
 }
@@ -544,6 +550,8 @@ fn gen13(seed: u64, n: usize, out: &str) {
     for id in 0..n {
         writeln!(w, "case id={}", id).unwrap();
         let mut live: Vec<u64> = vec![0]; // keys of rows that exist (committed), row 0 from the setup
+        let mut room_of: std::collections::HashMap<u64, i64> = std::collections::HashMap::new(); // 0 = first room
+        room_of.insert(0, 0);
         let mut next_key = 1u64;
         let mut next_aux = 1u64;
         let nb = 1 + g.below(3);
@@ -556,12 +564,15 @@ fn gen13(seed: u64, n: usize, out: &str) {
             let mut used: Vec<u64> = vec![];
             let mut created: Vec<u64> = vec![];
             let mut deleted: Vec<u64> = vec![];
+            let mut moved: Vec<(u64, i64)> = vec![];
             let mut marking = false;
             for _ in 0..nm {
                 let day = g.below(3) as i64 + b as i64;
                 match g.weighted(&[6, 2, 3, 3, 1, 1, 1, 2, 2]) {
                     0 | 1 => {
                         let kind = if g.chance(1, 4) { "ps" } else { "pm" };
+                        let ri: i64 = if g.chance(1, 5) { 1 } else { 0 };
+                        let day = ri * 100 + day;
                         let rows = 1 + g.below(3);
                         let mut kv = vec![];
                         for _ in 0..rows {
@@ -569,11 +580,13 @@ fn gen13(seed: u64, n: usize, out: &str) {
                             if !free.is_empty() && g.chance(1, 2) {
                                 let k = *g.pick(&free);
                                 used.push(k);
+                                moved.push((k, ri));
                                 kv.push(format!("{}-{}", k, 1 + g.below(9)));
                             } else {
                                 let k = next_key;
                                 next_key += 1;
                                 created.push(k);
+                                moved.push((k, ri));
                                 kv.push(format!("{}-1", k));
                             }
                         }
@@ -582,12 +595,15 @@ fn gen13(seed: u64, n: usize, out: &str) {
                         marking = true;
                     }
                     2 => {
+                        let ri: i64 = if g.chance(1, 5) { 1 } else { 0 };
+                        let day = ri * 100 + day;
                         let rows = 1 + g.below(3);
                         let mut kv = vec![];
                         for _ in 0..rows {
                             let k = next_key;
                             next_key += 1;
                             created.push(k);
+                            moved.push((k, ri));
                             kv.push(format!("{}-1", k));
                         }
                         stmts.push(kv.len() as u64);
@@ -607,6 +623,8 @@ fn gen13(seed: u64, n: usize, out: &str) {
                         deleted.push(k);
                         let kind = if g.chance(1, 3) { "dn" } else { "dl" };
                         stmts.push(2);
+                        // the deletion record lands in the row's room
+                        let day = room_of.get(&k).copied().unwrap_or(0) * 100 + day;
                         msgs.push(format!("{}.{}.{}", kind, day, k));
                         marking = true;
                     }
@@ -692,6 +710,9 @@ fn gen13(seed: u64, n: usize, out: &str) {
             if applied {
                 live.retain(|k| !deleted.contains(k));
                 live.extend(created);
+                for (k, r) in moved {
+                    room_of.insert(k, r);
+                }
             }
             if g.chance(1, 3) {
                 writeln!(w, "recompute").unwrap();
